@@ -23,6 +23,7 @@ const c17Schema = `{"name":"DB","version":"1.0.0","tables":{
  "Item":{"isRoot":true,"indexes":[["key"]],"columns":{"key":{"type":"string"},"owner":{"type":"integer"}}},
  "Parent":{"isRoot":true,"indexes":[["name"]],"columns":{"name":{"type":"string"},"kids":{"type":{"key":{"type":"uuid","refTable":"Child","refType":"strong"},"min":0,"max":"unlimited"}}}},
  "Child":{"columns":{"name":{"type":"string"}}},
+ "Scratch":{"isRoot":true,"indexes":[["id"]],"columns":{"id":{"type":"string"},"n":{"type":"integer"}}},
  "Log":{"isRoot":true,"columns":{"tag":{"type":"string"},"client":{"type":"integer"}}}}}`
 
 type c17Txn struct {
@@ -56,7 +57,20 @@ func genC17Program(t *rapid.T, client int, uuidBase *int, children []string) []*
 		*uuidBase++
 		logOp := kit.Op{Op: "insert", Table: "Log", UUID: kit.MkUUID(*uuidBase), Row: kit.Row{"tag": kit.Scalar(kit.Str(tag)), "client": kit.Scalar(kit.Int(int64(client)))}}
 		tx := &c17Txn{Tag: tag, Client: client, Seq: i}
-		switch rapid.SampledFrom([]string{"incr", "incr", "insert-if-absent", "insert-if-absent", "move", "cas", "detach", "detach+claim"}).Draw(t, "kind") {
+		switch rapid.SampledFrom([]string{"incr", "incr", "insert-if-absent", "insert-if-absent", "move", "cas", "detach", "detach+claim", "retire+claim", "incr-scratch"}).Draw(t, "kind") {
+		case "retire+claim":
+			// a scratch row is deleted and a contested key claimed: when the claim fails the row
+			// is still there for everybody who comes later
+			*uuidBase++
+			sid := rapid.SampledFrom([]string{"s1", "s2", "s3"}).Draw(t, "scratch")
+			k := rapid.SampledFrom([]string{"k1", "k2", "k3", "k4"}).Draw(t, "key")
+			tx.Kind = "retire+claim"
+			tx.Ops = []kit.Op{{Op: "delete", Table: "Scratch", Where: []kit.Cond{eqStr("id", sid)}},
+				{Op: "insert", Table: "Item", UUID: kit.MkUUID(*uuidBase), Row: kit.Row{"key": kit.Scalar(kit.Str(k)), "owner": kit.Scalar(kit.Int(int64(client)))}}, logOp}
+		case "incr-scratch":
+			sid := rapid.SampledFrom([]string{"s1", "s2", "s3"}).Draw(t, "scratch")
+			tx.Kind = "incr-scratch"
+			tx.Ops = []kit.Op{{Op: "mutate", Table: "Scratch", Where: []kit.Cond{eqStr("id", sid)}, Mutations: []kit.Mut{{Col: "n", Mutator: "+=", Val: kit.Scalar(kit.Int(1))}}}, logOp}
 		case "detach", "detach+claim":
 			// a child leaves a parent (when no parent holds it any more it is garbage collected);
 			// the second form also claims a contested key: when that fails nothing may remain of
@@ -160,6 +174,9 @@ func c17Test(t *testing.T, aged bool) {
 			{Op: "insert", Table: "Child", UUID: children[2], Row: kit.Row{"name": kit.Scalar(kit.Str("z"))}},
 			{Op: "insert", Table: "Parent", UUID: kit.MkUUID(21), Row: kit.Row{"name": kit.Scalar(kit.Str("p1")), "kids": kit.SetOf(kit.UUID(children[0]), kit.UUID(children[1]), kit.UUID(children[2]))}},
 			{Op: "insert", Table: "Parent", UUID: kit.MkUUID(22), Row: kit.Row{"name": kit.Scalar(kit.Str("p2"))}},
+			{Op: "insert", Table: "Scratch", UUID: kit.MkUUID(31), Row: kit.Row{"id": kit.Scalar(kit.Str("s1"))}},
+			{Op: "insert", Table: "Scratch", UUID: kit.MkUUID(32), Row: kit.Row{"id": kit.Scalar(kit.Str("s2"))}},
+			{Op: "insert", Table: "Scratch", UUID: kit.MkUUID(33), Row: kit.Row{"id": kit.Scalar(kit.Str("s3"))}},
 		}
 		if res, err := kit.TransactOps(bg, w, setup, initOps); err != nil || len(res) != len(initOps) {
 			t.Fatalf("init: %v %v", res, err)
@@ -466,7 +483,7 @@ func c17Test(t *testing.T, aged bool) {
 				sum[tx.Ops[0].Where[0].Val.K[0].S] += tx.Ops[0].Mutations[0].Val.K[0].I
 			case "insert-if-absent":
 				winners[tx.Ops[0].Row["key"].K[0].S]++
-			case "detach+claim":
+			case "detach+claim", "retire+claim":
 				winners[tx.Ops[1].Row["key"].K[0].S]++
 			case "cas":
 				casOK++
@@ -485,7 +502,7 @@ func c17Test(t *testing.T, aged bool) {
 				if tx.Kind == "insert-if-absent" {
 					attempted[tx.Ops[0].Row["key"].K[0].S]++
 				}
-				if tx.Kind == "detach+claim" {
+				if tx.Kind == "detach+claim" || tx.Kind == "retire+claim" {
 					attempted[tx.Ops[1].Row["key"].K[0].S]++
 				}
 			}
